@@ -88,6 +88,12 @@ func handler(env *wl.Env, stream drpc.Stream, rpc string) error {
 				return err
 			}
 		}
+	case strings.HasPrefix(rpc, "/xd"): // the application's decoder rejects the request
+		var in []byte
+		if err := stream.MsgRecv(&in, enc.FailUnmarshal{}); err != nil {
+			return err
+		}
+		return nil
 	}
 	return fmt.Errorf("unknown rpc %s", rpc)
 }
@@ -174,6 +180,18 @@ var workloadTable = map[string]func(env *wl.Env){
 			wl.Cancel(cancel)
 		}
 		workloads["sstream"](env)
+	},
+	// a request the handler's decoder rejects (the handler fails), then a reply the client's decoder
+	// rejects (used by C12: whatever a failed decode leaves behind must not survive a close)
+	"baddecode": func(env *wl.Env) {
+		l := getLog(env)
+		p := enc.Payload('X', 0, 0, enc.MinPayload)
+		in, out := append([]byte(nil), p...), []byte(nil)
+		_ = env.Conn.Invoke(context.Background(), "/xdA", enc.Bytes{}, &in, &out)
+		q := enc.Payload(tagFor("/uB"), 0, 0, enc.MinPayload)
+		l.sent["/uB/c2s"] = append(l.sent["/uB/c2s"], q)
+		in2 := append([]byte(nil), q...)
+		_ = env.Conn.Invoke(context.Background(), "/uB", enc.FailUnmarshal{}, &in2, &out)
 	},
 	// three goroutines call Invoke at once: one RPC in flight, two queued behind it
 	"concurrent3": func(env *wl.Env) {
